@@ -30,7 +30,7 @@ ASSUMPTIONS = [
     "model",
 ]
 
-VIEWS = ("astdump", "has_import", "has_call", "has_nss_call", "imports", "severity", "dumps", "dump_file", "counts")
+VIEWS = ("astdump", "has_import", "has_call", "has_nss_call", "imports", "severity", "severity_narrow", "dumps", "dump_file", "counts")
 # every opcode class without an argument (the machine draws from all of them)
 SIMPLE = ("MARK", "TUPLE", "REDUCE", "POP", "STOP", "EMPTY_LIST", "EMPTY_DICT", "APPEND", "MEMOIZE",
           "NONE", "DUP", "EMPTY_TUPLE", "TUPLE1", "BUILD", "POP_MARK", "STACK_GLOBAL", "NEWOBJ",
@@ -77,6 +77,30 @@ def sdump(node, _path=frozenset()):
     return ("object", type(node).__name__)
 
 
+def _cyclic(node, _path=()):
+    import ast as _ast
+
+    if isinstance(node, _ast.AST):
+        if any(node is x for x in _path):
+            return True
+        _path = _path + (node,)
+        return any(_cyclic(getattr(node, f, None), _path) for f in node._fields)
+    if isinstance(node, (list, tuple)):
+        return any(_cyclic(x, _path) for x in node)
+    return False
+
+
+_NARROW = {}
+
+
+def _narrow():
+    if "a" not in _NARROW:
+        from fickling.analysis import Analysis, Analyzer
+
+        _NARROW["a"] = Analyzer([a for a in Analysis.ALL if type(a).__name__ in ("DuplicateProtoAnalysis", "MisplacedProtoAnalysis", "UnusedVariables")])
+    return _NARROW["a"]
+
+
 def view(p, which):
     from fickling.analysis import check_safety
 
@@ -91,8 +115,15 @@ def view(p, which):
             return ("ok", p.has_non_setstate_call)
         if which == "imports":
             return ("ok", tuple(ast.unparse(n) for n in p.properties.imports))
+        if which in ("severity", "severity_narrow") and _cyclic(p.ast):
+            # edits can build a list that contains itself; ast.walk (used by one analysis) never
+            # returns on such a tree. Termination is no part of the property: not asked.
+            return ("raised", "cyclic-ast")
         if which == "severity":
             return ("ok", check_safety(p).severity.name)
+        if which == "severity_narrow":
+            # the verdict of an analyzer of one's own (two of the analyses only)
+            return ("ok", check_safety(p, analyzer=_narrow()).severity.name)
         if which == "dumps":
             return ("ok", p.dumps())
         if which == "counts":
